@@ -295,6 +295,9 @@ async fn explore12(u: &Universe, r2: &URoom, r3: &URoom, h: &History, out: &mut 
             if SKIP_OPS.contains(op) {
                 continue;
             }
+            if op.starts_with("create_P_size_") && !h.events.is_empty() {
+                continue; // rows around the size limit: on the initial definitions only
+            }
             if let Some((ox, oop)) = only {
                 if ox != x || oop != *op {
                     continue;
